@@ -112,7 +112,7 @@ func c22Join(t *testing.T, rep *vfReport, e *ssmEnv) {
 func TestVerifC22(t *testing.T) {
 	rep := vfNewReport("C22", "generated histories on real single-node stores over {write requests (plain/transaction; put, insert, delete, add, failing statement), load of a generated database file (WAL- or DELETE-mode), SQL-text load, load of invalid data carrying the SQLite magic (garbage, truncated file, corrupt header), boot, snapshot with/without log truncation, restart (fast path or forced rebuild)}, then a second node joins; the table is checked after every step; non-trivial = at least one load/boot and at least one restart or invalid load; distinct by history text")
 	defer rep.Write()
-	r := vfNewRng(22)
+	r := ssmRng(22)
 	n := vfScale(5, 60)
 	var allOps, allImpl [][]string
 	for h := 0; h < n; h++ {
